@@ -1,4 +1,5 @@
 import RulioModel.Cache
+import RulioProofs.Cache
 import RulioProofs.CloseReload
 import RulioProofs.ComposeMatch
 
@@ -689,7 +690,7 @@ theorem stSem_indexed_not_reloadOK (tm : Int) (stamp : String) : ReloadOK (stSem
   rw [w.1, w.2] at e2
   cases e2
 
-/-! ## operations that keep the `createdAt` marker (for `ReqOK` with existence checking on) -/
+/-! ## operations that keep the `createdAt` marker (for `ReqKeeps`: overlapping requests with existence checking on) -/
 
 theorem markerId_eq : markerId = "!.createdAt" := by decide
 
@@ -732,6 +733,40 @@ theorem genId_given {x : Obj} {g fr id : String} (hx : parseProp x = .ok none) (
   · cases h
   · cases h; rfl
 
+/-! ## the semantics of the System's methods: `ClearLocation` keeps the marker
+
+`System.ClearLocation` reads the `createdAt` property, calls `Location.Clear` and sets the property again when it was
+there (`keepMark` of `RulioModel/Cache.lean`); every other method is the State's own operation. -/
+
+def ROp.isClear : ROp → Bool
+  | .clear => true
+  | _ => false
+
+/-- **the State of kind `k` under the System's API**: `stSem k`, with `Clear` carried out the way `ClearLocation` does it -/
+def sysSem (k : Kind) (tm : Int) (stamp : String) : LocSem := keepMark (stSem k tm stamp) ROp.isClear
+
+/-- reloading stays the identity on observations (linear kind, in full) -/
+def sysSem_reloadOK_linear (tm : Int) (stamp : String) : ReloadOK (sysSem .linear tm stamp) :=
+  keepMark_reloadOK (stSem_reloadOK_linear tm stamp) ROp.isClear
+
+/-- **the indexed State under the System's API, restricted to the fragment `idxFrag q`** -/
+def idxSysSem (q : Bool) (tm : Int) (stamp : String) (hm : idxFrag q (.add "" (markerFact stamp) tm) = true) : LocSem :=
+  keepMark (idxSem q tm stamp hm) (fun op => ROp.isClear op.1)
+
+def idxSysSem_reloadOK_partial (q : Bool) (tm : Int) (stamp : String)
+    (hm : idxFrag q (.add "" (markerFact stamp) tm) = true) : ReloadOK (idxSysSem q tm stamp hm) :=
+  keepMark_reloadOK (idxSem_reloadOK_partial q tm stamp hm) _
+
+/-- `ClearLocation` never erases the marker (linear kind) -/
+theorem sysSem_clear_keeps (tm : Int) (stamp : String) : KeepsMarker (sysSem .linear tm stamp) .clear :=
+  keepMark_keeps (stSem .linear tm stamp) ROp.isClear (stSem_reloadOK_linear tm stamp).mark_created .clear rfl
+
+/-- `ClearLocation` never erases the marker (indexed kind, fragment) -/
+theorem idxSysSem_clear_keeps (q : Bool) (tm : Int) (stamp : String) (hm : idxFrag q (.add "" (markerFact stamp) tm) = true)
+    (hop : idxFrag q .clear = true) : KeepsMarker (idxSysSem q tm stamp hm) ⟨.clear, hop⟩ :=
+  keepMark_keeps (idxSem q tm stamp hm) (fun op => ROp.isClear op.1) (idxSem_reloadOK_partial q tm stamp hm).mark_created
+    ⟨.clear, hop⟩ rfl
+
 /-! ## example histories (two locations; create, add, overwrite, search, rule lookup, remove, get, clear) -/
 
 def exStamp : String := "2026-01-01T00:00:00Z"
@@ -747,16 +782,12 @@ def StRes.code : StRes → Nat
   | .clear => 5
   | _ => 0
 
-def stOutCode {k : Kind} {tm : Int} {stamp : String} : Out (stSem k tm stamp) → Nat
+def stOutCode {k : Kind} {tm : Int} {stamp : String} : Out (sysSem k tm stamp) → Nat
   | .ok r => StRes.code r
   | .notFound => 100
   | .created true => 101
   | .created false => 102
   | .peeked => 103
-
-/-- with existence checking off every request is covered by the transparency theorem -/
-theorem reqOK_unchecked (sem : LocSem) (r : Req sem) : ReqOK sem false r := by
-  cases r <;> simp [ReqOK]
 
 theorem sameReqs_refl {sem : LocSem} : ∀ (b : List (Req sem × Int × Int)), SameReqs b b
   | [] => trivial
@@ -772,7 +803,7 @@ theorem sameReqs_reclock {sem : LocSem} (f : Int → Int) : ∀ (b : List (Req s
 
 /-- linear kind: an expiring fact, a generated id, a rule, searches before and after the expiry, a rule lookup,
 a removal, an unchecked open, a clear — on the two locations "home" and "work" -/
-def exHistLin : List (Req (stSem .linear 0 exStamp) × Int × Int) :=
+def exHistLin : List (Req (sysSem .linear 0 exStamp) × Int × Int) :=
   [(.create "home", 0, 1),
    (.api "home" (.add "f1" [("likes", .str "tacos"), ("ttl", .num 50)] 10), 2, 3),
    (.api "work" (.add "" [("likes", .str "chips")] 11), 4, 5),
@@ -789,34 +820,20 @@ def exHistLin : List (Req (stSem .linear 0 exStamp) × Int × Int) :=
    (.api "work" .clear, 24, 25),
    (.api "work" (.get "fresh#0" 19), 26, 27)]
 
-/-- with existence checking on: creates and adds under ids other than the marker's (they keep the marker) -/
-def exHistChk : List (Req (stSem .linear 0 exStamp) × Int × Int) :=
+/-- with existence checking on: an add before the location exists, creates, adds, `ClearLocation` (keeps the marker),
+an unchecked open of a location that is never created (`GetLocation "work"`) followed by checked requests to it, and
+the removal of the marker by its id followed by a checked request -/
+def exHistChk : List (Req (sysSem .linear 0 exStamp) × Int × Int) :=
   [(.api "home" (.add "f0" [("likes", .str "tacos")] 9), 0, 1),
    (.create "home", 2, 3),
    (.api "home" (.add "f1" [("likes", .str "tacos")] 10), 4, 5),
-   (.api "work" (.add "f2" [("likes", .str "chips")] 11), 6, 7),
-   (.create "home", 8, 9),
-   (.api "home" (.add "f3" [("likes", .str "beer")] 12), 10, 11)]
-
-theorem exHistChk_ok : ∀ x ∈ exHistChk, ReqOK (stSem .linear 0 exStamp) true x.1 := by
-  have key : ∀ (g : String) (v : String) (now : Int), g ≠ "" → g ≠ markerId →
-      KeepsMarker (stSem .linear 0 exStamp) (.add g [("likes", .str v)] now) := by
-    intro g v now h1 h2
-    refine keepsMarker_add_st _ _ _ _ _ _ (fun fr id hid => ?_)
-    have hp : parseProp [("likes", .str v)] = .ok none := by
-      have : idProperty "likes" = false := by decide +kernel
-      simp [parseProp, List.filter, this]
-    rw [genId_given hp h1 hid]
-    exact h2
-  intro x hx
-  simp only [exHistChk, List.mem_cons, List.mem_nil_iff, or_false] at hx
-  rcases hx with h | h | h | h | h | h <;> subst h
-  · exact fun _ => key _ _ _ (by decide) (by decide)
-  · trivial
-  · exact fun _ => key _ _ _ (by decide) (by decide)
-  · exact fun _ => key _ _ _ (by decide) (by decide)
-  · trivial
-  · exact fun _ => key _ _ _ (by decide) (by decide)
+   (.peek "work", 6, 7),
+   (.api "work" (.add "f2" [("likes", .str "chips")] 11), 8, 9),
+   (.create "home", 10, 11),
+   (.api "home" .clear, 12, 13),
+   (.api "home" (.add "f3" [("likes", .str "beer")] 12), 14, 15),
+   (.api "home" (.rem markerId 13), 16, 17),
+   (.api "home" (.add "f4" [("likes", .str "salsa")] 14), 18, 19)]
 
 /-- the marker `Add` is inside the fragment with queries -/
 theorem exMarkOK : idxFrag true (.add "" (markerFact exStamp) 0) = true := by decide +kernel
@@ -827,7 +844,7 @@ def fop (op : ROp) (h : idxFrag true op = true := by decide +kernel) : IdxOp tru
 /-- indexed kind, inside the fragment: a fact that is overwritten (its old terms stay in the live term index as stale
 ids, the reloaded index does not have them), a generated id, a dependent fact removed by a cascade, searches, a get,
 a clear — on the two locations "home" and "work" -/
-def exHistIdx : List (Req (idxSem true 0 exStamp exMarkOK) × Int × Int) :=
+def exHistIdx : List (Req (idxSysSem true 0 exStamp exMarkOK) × Int × Int) :=
   [(.create "home", 0, 1),
    (.api "home" (fop (.add "f1" [("likes", .str "tacos")] 10)), 2, 3),
    (.api "work" (fop (.add "" [("likes", .str "chips")] 11)), 4, 5),
@@ -855,7 +872,7 @@ def StResQ.code : StResQ → Nat
   | _ => 0
 
 def idxOutCode {q : Bool} {tm : Int} {stamp : String} {hm : idxFrag q (.add "" (markerFact stamp) tm) = true} :
-    Out (idxSem q tm stamp hm) → Nat
+    Out (idxSysSem q tm stamp hm) → Nat
   | .ok r => StResQ.code r
   | .notFound => 100
   | .created true => 101
